@@ -160,6 +160,32 @@ func c18Gen(r *rand.Rand) c18Case {
 		}
 		t.Ctrs[i].Recs = append(t.Ctrs[i].Recs, LRec{TS: ts, Body: pick(r, []string{"error x", "info", "lvl=warn n=5", "x", "a=1", `{"a":"x","nested":{"k":1}}`, `{"nested":[1,2],"lvl":"warn"}`})})
 	}
+	if r.Intn(8) == 0 {
+		// float folding: 3-5 containers in ONE group with rates k/10 (0.1, 0.2, 0.3, ...): the sum, mean and
+		// deviation of such values depend on the order of the additions in the last bit, so any
+		// dependence of that order on map iteration shows as two different answers to one query
+		n = 3 + r.Intn(3)
+		t.Ctrs = nil
+		counts := r.Perm(6)
+		for i := 0; i < n; i++ {
+			c := c18Ctr{Name: names[i]}
+			if r.Intn(3) == 0 {
+				c.Labels = [][2]string{{"tier", "fe"}}
+			}
+			for k := 0; k <= counts[i]; k++ {
+				c.Recs = append(c.Recs, LRec{TS: (mT0+1)*1e9 + int64(i)*1000 + int64(k)*700000000, Body: pick(r, []string{"x", "info", "error x"})})
+			}
+			t.Ctrs = append(t.Ctrs, c)
+		}
+		inner := &MExpr{Kind: "range", Op: pick(r, []string{"rate", "rate", "bytes_rate"}), RangeS: 10}
+		t.Metric = &MExpr{Kind: "vagg", Op: pick(r, []string{"sum", "sum", "avg", "stddev", "stdvar"}), A: inner}
+		if r.Intn(3) == 0 {
+			t.Metric.Group = &MGroup{Without: true, Labels: []string{"container", "container_id", "container_name", "tier"}}
+		}
+		t.Start, t.End, t.Step = (mT0+10)*1e9, (mT0+10)*1e9, 0
+		t.Reps = 4
+		return t
+	}
 	if r.Intn(2) == 0 {
 		inner := &MExpr{Kind: "range", Op: pick(r, []string{"count_over_time", "bytes_over_time", "rate"}), RangeS: pick(r, []int64{5, 10})}
 		e := inner
@@ -204,13 +230,13 @@ func c18Impl(d *cliDriver, thorough bool) func(t c18Case) Sexp {
 			}
 		}
 		var first Sexp
-		var firstRender string
+		var firstRender, firstExact string
 		haveFirst := false
 		for _, order := range orders {
 			for rep := 0; rep < t.Reps; rep++ {
 				q, _ := dockerlog.NewQuerier(t.fake(order))
 				var res Sexp
-				rendered := ""
+				rendered, exact := "", ""
 				if t.Metric != nil {
 					mq := MetricCase{E: *t.Metric, Start: t.Start, End: t.End, Step: t.Step}
 					_ = mq
@@ -219,6 +245,7 @@ func c18Impl(d *cliDriver, thorough bool) func(t c18Case) Sexp {
 						res = L(A("err"), A(errClassOf(err)))
 					} else {
 						res = metricDataSexp(data)
+						exact = metricDataExact(data)
 					}
 				} else {
 					lim := -1
@@ -257,8 +284,13 @@ func c18Impl(d *cliDriver, thorough bool) func(t c18Case) Sexp {
 					}
 				}
 				if !haveFirst {
-					first, firstRender, haveFirst = res, rendered, true
+					first, firstRender, firstExact, haveFirst = res, rendered, exact, true
 					continue
+				}
+				// repetitions must agree to the last digit: the values are compared as printed, not within
+				// the tolerance used against the model (a sum folded in map order differs in the last bit)
+				if exact != firstExact {
+					return L(A("nondeterministic-result"), B(firstExact), B(exact))
 				}
 				same := res.String() == first.String()
 				if t.Metric != nil {
